@@ -35,9 +35,9 @@ func main() {
 	runner.Main(runner.Config{
 		ID:    "C05",
 		Level: "fault_enumeration",
-		Rule: "fault enumeration over 4 builds (nested directories, symlinks to a file / to a directory / inside a sub-directory, empty directories, empty files, files of 1, 6, B-1, B, B+1, B+100, 2B, 2B+100, 3B bytes incl. zero-filled ones; B=64KiB). Catalogue per signed entry: Flip(file,off), Truncate(file,len), Empty(file), Extend(file,n,rand|zero), Fill(emptyFile,n), Delete(path), Kind(path -> file | dir with child | dangling symlink | symlink to an identical twin), Retarget(symlink); off/len from {0,1,size-1,size} and {kB-1,kB,kB+1} for every block boundary (a superset of {0,1,B-1,B,B+1,size-1,size}); n from {1,B-1,B,B+1,2B+1}. Enumerated: the undamaged copy, every single damage, every pair of damages on two distinct entries (descendant before ancestor). Each damaged copy is validated twice by the real ValidatorContext: with WoundsPath (the .pww file is decoded by the harness' own decoder) and with FailFast, each under a 120 s watchdog. Oracle: Lstat/ReadFile comparison of the damaged directory with the pristine build, per signed entry. Non-trivial = at least one signed file is still a regular file but differs in bytes or length (the streaming block check decides, not the lstat pass).",
+		Rule:  "fault enumeration over 4 builds (nested directories, symlinks to a file / to a directory / inside a sub-directory, empty directories, empty files, files of 1, 6, B-1, B, B+1, B+100, 2B, 2B+100, 3B bytes incl. zero-filled ones; B=64KiB). Catalogue per signed entry: Flip(file,off), Collide(file,block) (two bit flips 32768 bytes apart that keep the weak checksum of the block), Truncate(file,len), Empty(file), Extend(file,n,rand|zero), Fill(emptyFile,n), Delete(path), Kind(path -> file | dir with child | dangling symlink | symlink to an identical twin), Retarget(symlink); off/len from {0,1,size-1,size} and {kB-1,kB,kB+1} for every block boundary (a superset of {0,1,B-1,B,B+1,size-1,size}); n from {1,B-1,B,B+1,2B+1}. Enumerated: the undamaged copy, every single damage, every pair of damages on two distinct entries and, in the thorough tier, every triple on three distinct entries (descendant before ancestor). Each damaged copy is validated twice by the real ValidatorContext: with WoundsPath (the .pww file is decoded by the harness' own decoder) and with FailFast, each under a 120 s watchdog. Oracle: Lstat/ReadFile comparison of the damaged directory with the pristine build, per signed entry. Non-trivial = at least one signed file is still a regular file but differs in bytes or length (the streaming block check decides, not the lstat pass).",
 		Assumptions: []string{
-			"damage sequences longer than 2 are not enumerated",
+			"damage sequences longer than 2 (quick) / 3 (thorough) are not enumerated",
 			"flips change one bit (0x01) of the chosen byte; appended content is seeded pseudo-random or zeros",
 			"file modes are not damaged (the statement does not mention them)",
 			"the 120 s watchdog only turns a deadlock into a reported case; normal validations of these builds take milliseconds",
@@ -52,7 +52,7 @@ func builds() []wh.Build {
 		{wh.F("a", "r1/1"), wh.F("d/b", "A"), wh.F("d/sub/c", "B.B/1"), wh.F("e", ""), wh.L("l", "a"), wh.D("emptydir")},
 		{wh.F("big", "C.D.E/100"), wh.F("two", "F.G"), wh.F("zeros", "Z.z/100"), wh.L("d/l2", "../big"), wh.D("d/x/y")},
 		{wh.F("x", "=hello!"), wh.F("y/z", "=w"), wh.F("e1", ""), wh.F("y/e2", ""), wh.L("y/l", "z"), wh.L("l0", "y"), wh.D("y/emptydir")},
-		{wh.F("m", "Z"), wh.F("n", "H/65535"), wh.F("q/o", "I.J.K"), wh.F("p", "z/1")},
+		{wh.F("m", "Z"), wh.F("n", "H/65535"), wh.F("q/o", "I.J.K"), wh.F("p", "z/1"), wh.L("q/lq", "o")},
 	}
 }
 
@@ -347,7 +347,7 @@ func body(w *runner.W) {
 					if wd.Kind == pwr.WoundKind_FILE {
 						ft := t.files[wd.Index]
 						if ft.regular && ft.actual > ft.signed && wd.Start == ft.actual && wd.End == ft.signed {
-							why = "file-longer-than-signed:start=actual-size,end=signed-size"
+							why = "file-longer-than-signed"
 						}
 					}
 					name := ""
@@ -428,7 +428,7 @@ func body(w *runner.W) {
 	var plans []plan
 	for _, b := range builds() {
 		p := prep(b)
-		plans = append(plans, plan{b, Catalogue(p.sig.Container)})
+		plans = append(plans, plan{b, Catalogue(p.sig.Container, p.pristine)})
 	}
 
 	single := runner.NewSub(w, "single", run, runner.Journal())
@@ -447,16 +447,11 @@ func body(w *runner.W) {
 
 	pairs := runner.NewSub(w, "pairs", run, runner.Journal())
 	if pairs.Active() {
-		n, total := 0, 0
+		n := 0
 		for _, p := range plans {
 			for i := 0; i < len(p.cat); i++ {
 				for j := i + 1; j < len(p.cat); j++ {
 					if p.cat[i].Path == p.cat[j].Path {
-						continue
-					}
-					total++
-					// quick: a fixed 1-in-9 slice of the pairs (all of them in the thorough tier)
-					if w.Quick() && (i*31+j)%9 != 0 {
 						continue
 					}
 					pairs.Do(Case{Build: p.b, Damage: []Damage{p.cat[i], p.cat[j]}})
@@ -464,8 +459,35 @@ func body(w *runner.W) {
 				}
 			}
 		}
-		pairs.Note("pairs_enumerated", n)
-		pairs.Note("pairs_in_full_space", total)
+		pairs.Note("pairs", n)
 		pairs.Done()
+	}
+
+	// thorough only: every sequence of three damages on three distinct entries
+	triples := runner.NewSub(w, "triples", run, runner.Journal())
+	if triples.Active() {
+		n := 0
+		for _, p := range plans {
+			if w.Quick() {
+				triples.Note("not_in_quick_tier", "the quick tier's bound is sequences of length <= 2")
+				break
+			}
+			for i := 0; i < len(p.cat); i++ {
+				for j := i + 1; j < len(p.cat); j++ {
+					if p.cat[i].Path == p.cat[j].Path {
+						continue
+					}
+					for k := j + 1; k < len(p.cat); k++ {
+						if p.cat[k].Path == p.cat[i].Path || p.cat[k].Path == p.cat[j].Path {
+							continue
+						}
+						triples.Do(Case{Build: p.b, Damage: []Damage{p.cat[i], p.cat[j], p.cat[k]}})
+						n++
+					}
+				}
+			}
+		}
+		triples.Note("triples", n)
+		triples.Done()
 	}
 }
